@@ -18,7 +18,11 @@ func conversionCollectionToList(ety cty.Type, conv conversion) conversion {
 			// for a set containing unknown values) then our result must be
 			// an unknown list, because we can't predict how many elements
 			// the resulting list should have.
-			return cty.UnknownVal(cty.List(val.Type().ElementType())), nil
+			// The element type is the requested one, with any placeholders
+			// resolved from the source element type just as for a wholly
+			// unknown source value.
+			resultEty := dynamicReplace(val.Type().ElementType(), ety).WithoutOptionalAttributesDeep()
+			return cty.UnknownVal(cty.List(resultEty)), nil
 		}
 
 		elems := make([]cty.Value, 0, val.LengthInt())
